@@ -50,7 +50,7 @@ def run(tier, seed):
         chk.sample({"label": f"{fmt} valid chain, roots configured only for another format + unrelated anchor for this one", "expected": "reject"})
         # 2. chain faults with anchors in force; and (pass-through formats) with no anchors
         for name, f in regcat.CHAIN_FAULTS.items():
-            if fmt == "fido-u2f" and "intermediate" in name:
+            if fmt == "fido-u2f" and ("intermediate" in name or name in regcat.MULTI_CERT_FAULTS):
                 continue
             for ni in ((0, 1) if not quick else (1,)):
                 if fmt == "fido-u2f":
